@@ -78,7 +78,12 @@ def search_impl(chk, mod, fields, rnd, tier):
         a = wf[i]
         for j in range(len(wf)):
             b = wf[j]
-            c = a.combine(b)
+            try:
+                c = a.combine(b)
+            except AssertionError:
+                n += chk.violation({"kind": "input", "what": "Theory.combine raises AssertionError on two well-formed theories", "a": str(a), "b": str(b),
+                                    "repro": "pysmt.logics.Theory(<flags of a>).combine(Theory(<flags of b>))"}, key="combine-asserts:%d:%d" % (codes[i], codes[j]))
+                break
             if not (a <= c and b <= c):
                 n += chk.violation({"kind": "input", "what": "combine is not an upper bound", "a": str(a), "b": str(b), "combine": str(c)},
                                    key="upper:%d:%d" % (codes[i], codes[j]))
